@@ -195,17 +195,28 @@ func validateSiacoins(ms *MidState, txn types.Transaction, ts V1TransactionSuppl
 		}
 		inputSum = inputSum.Add(parent.SiacoinOutput.Value)
 	}
+	// NOTE: miner fees are not covered by validateCurrencyOverflow, so the
+	// output sum must be computed with overflow checks; a sum that overflows
+	// cannot equal the input sum.
 	var outputSum types.Currency
+	var overflow bool
+	addOutput := func(c types.Currency) {
+		if !overflow {
+			outputSum, overflow = outputSum.AddWithOverflow(c)
+		}
+	}
 	for _, out := range txn.SiacoinOutputs {
-		outputSum = outputSum.Add(out.Value)
+		addOutput(out.Value)
 	}
 	for _, fc := range txn.FileContracts {
-		outputSum = outputSum.Add(fc.Payout)
+		addOutput(fc.Payout)
 	}
 	for _, fee := range txn.MinerFees {
-		outputSum = outputSum.Add(fee)
+		addOutput(fee)
 	}
-	if inputSum.Cmp(outputSum) != 0 {
+	if overflow {
+		return fmt.Errorf("siacoin inputs (%v) do not equal outputs (overflow)", inputSum)
+	} else if inputSum.Cmp(outputSum) != 0 {
 		return fmt.Errorf("siacoin inputs (%v) do not equal outputs (%v)", inputSum, outputSum)
 	}
 	return nil
